@@ -606,7 +606,8 @@ func (c04Engine) Run(sci interface{}, ctx *RunCtx) *Finding {
 	for oi, o := range sc.Options {
 		sample, sw := mkEnv(sc.Env, nil, nil, "compile")
 		var opts []expr.Option
-		if !o.NoEnv {
+		envLast := oi%3 == 2 // the options in another order: Env after everything else
+		if !o.NoEnv && !envLast {
 			opts = append(opts, expr.Env(sample))
 		}
 		if o.AllowUndefined {
@@ -633,7 +634,10 @@ func (c04Engine) Run(sci interface{}, ctx *RunCtx) *Finding {
 		if o.OperatorOp != "" || len(o.OperatorFns) > 0 {
 			opts = append(opts, expr.Operator(o.OperatorOp, o.OperatorFns...))
 		}
-		label := fmt.Sprintf("option set %d %+v", oi, o)
+		if !o.NoEnv && envLast {
+			opts = append(opts, expr.Env(sample))
+		}
+		label := fmt.Sprintf("option set %d %+v envLast=%v", oi, o, envLast)
 		ctx.Count("fault/option_sets", 1)
 		nontrivial("compile", src, label)
 		p := doCompile(label, src, sw, opts...)
@@ -643,7 +647,8 @@ func (c04Engine) Run(sci interface{}, ctx *RunCtx) *Finding {
 			ctx.Count("programs_run_after_faulty_compile", 1)
 		}
 		// also the simplest sources under this option set (result directives on nil, literals)
-		extra := []string{"nil", "1", "\"s\"", "[]", "{}", "Xs", "Any", "nil ?: 1", "#", "S in Pm", "\"k1\" in Pm", "A not in Pm", "Pm", "Lvl", "EmbV + Lvl", "a /*", "1 + 2 /* note", "/*/", "A // c"}
+		extra := []string{"nil", "1", "\"s\"", "[]", "{}", "Xs", "Any", "nil ?: 1", "#", "S in Pm", "\"k1\" in Pm", "A not in Pm", "Pm", "Lvl", "EmbV + Lvl", "a /*", "1 + 2 /* note", "/*/", "A // c",
+			"-5000000000000000000..5000000000000000000", "len(1..9223372036854775807)", "A in -9223372036854775807..9223372036854775807", "(-9223372036854775808)..0", "1 + `", "`a` + `", "2 ** 1000", "10 ** 19"}
 		if o.OperatorOp != "" {
 			// operands without a static type, dynamic operands and mismatched operands
 			// around the overloaded operator
